@@ -31,6 +31,14 @@ func one(st *State, fr *Frame) []stepOut { return []stepOut{{st: st, fr: fr}} }
 
 // panicOut marks st as panicking with msg.
 func (e *Exec) panicOut(st *State, fr *Frame, msg string) stepOut {
+	// a fault inside os/poll/syscall internals means a harness file stub does not cover the method that was
+	// called (e.g. a new (*os.File) method): that is missing modelling, never a finding
+	if fr != nil && fr.fn != nil && fr.fn.Pkg != nil {
+		switch fr.fn.Pkg.Pkg.Path() {
+		case "os", "internal/poll", "syscall", "io/fs", "internal/syscall/unix":
+			panic(unsupported("operation on a stubbed file reached %s (%s)", fr.fn, msg))
+		}
+	}
 	st.panicVal = e.panicString(msg)
 	st.panicMsg = msg
 	return stepOut{st: st, fr: fr, panicked: true}
